@@ -52,6 +52,27 @@ theorem BOk_of_boundary (ib : Bytes) (hne : ib ≠ []) (hlen : ib.length ≤ 70)
     · have := hchars _ h; simp [LF] at this
   · simp [LINE_CAP]; omega
 
+/-- **C08, in-memory delivery, whole bodies.**  For every RFC 2046 boundary, every non-empty list of
+    parts - names and file names with any characters but CR/LF (spaces, quotes, semicolons,
+    backslashes, non-ASCII), an optional plain media type, contents with any bytes and any line
+    lengths that do not contain the delimiter - encoded per RFC 7578 with or without a final CRLF
+    after the closing delimiter, the parser returns exactly the parts, in order: names, file names,
+    media types (`text/plain` when none was sent), byte-exact contents, and which parts are files. -/
+theorem C08_memory (ib final : Bytes) (hne : ib ≠ []) (hlen : ib.length ≤ 70)
+    (hchars : ∀ x ∈ ib, 32 ≤ x.toNat ∧ x.toNat ≤ 126) (hlast : ib.getLast? ≠ some 32)
+    (hfinal : final = [CR, LF] ∨ final = []) (ps : List EPart) (hps : ps ≠ []) (hok : ∀ p ∈ ps, PartOK ib p)
+    (fuel : Nat) (hfuel : ∀ p ∈ ps, p.content.length + 3 + ps.length < fuel) :
+    parseMultipart lfReader ib fuel (encode ib final ps) = .ok (ps.map expected) := by
+  have hvalid : validBoundary ib = true := by
+    unfold validBoundary
+    have h1 : ib.isEmpty = false := by cases ib <;> simp_all
+    have h2 : ib.all (fun x => decide (32 ≤ x.toNat) && decide (x.toNat ≤ 126)) = true := by
+      rw [List.all_eq_true]; intro x hx; have := hchars x hx; simp [this.1, this.2]
+    have h3 : (ib.getLast? != some 32) = true := by simpa using hlast
+    have h4 : decide (ib.length ≤ 201) = true := by simp; omega
+    simp [h1, h2, h3, h4]
+  exact parse_encode ib final (BOk_of_boundary ib hne hlen hchars hlast) hvalid hfinal ps hps hok fuel hfuel
+
 /-- non-vacuity: a content full of near-delimiters -/
 example :
     readLines lfReader (DASH :: DASH :: [66]) (DASH :: DASH :: [66] ++ [DASH, DASH]) 40 ⟨[], [], true⟩
@@ -60,5 +81,20 @@ example :
   apply C08_extract (DASH :: DASH :: [66]) _ [120] [] [CR, LF]
     (BOk_of_boundary [66] (by decide) (by decide) (by decide) (by decide)) (by decide) (Or.inl rfl) (Or.inl rfl)
   decide
+
+/-- non-vacuity of `PartOK`: a file part with an awkward name and a content made of CR, LF and dashes -/
+def demoPart : EPart :=
+  ⟨"a b".toList, some "x\\y\".bin".toList, some "image/png".toList, [1, 2, 13, 10, 45, 45, 13, 45, 66]⟩
+
+example : PartOK [66] demoPart := by
+  refine ⟨by decide, ?_, ?_, ?_⟩
+  · intro t ht
+    simp only [hdrTexts, demoPart, List.mem_cons, List.not_mem_nil, or_false] at ht
+    rcases ht with rfl | rfl <;> decide
+  · decide
+  · intro t ht
+    simp only [demoPart, Option.some.injEq] at ht
+    subst ht
+    refine ⟨⟨by decide, by decide⟩, by decide, by decide, by decide, by decide⟩
 
 end Poor.Props.C08
